@@ -349,7 +349,7 @@ func TestC29(t *testing.T) {
 	defer r.Finish()
 	maxLen := r.N(4, 5)
 	maxBr := r.N(6, 8)
-	r.Extra("rule", fmt.Sprintf("exhaustive: every string of length<=%d over the 20-symbol token-boundary alphabet %q and every bracket string of length<=%d over ()[]{}; random: the hostile families of C28 (corpus, truncations, mutants, random bytes, token/keyword/CEL soup, encoding attacks, nesting shapes) plus bracket soup. Each evaluation = one parser.Parse(...).Stream() checked for contiguity from 0 to len(text), concatenation == input, and every bracket token fused with the matching partner (properly nested) or pointed at by an Error diagnostic. Prelude-rejected inputs (invalid UTF-8 / UTF-16 signature, decided by the harness) only need: no panic, no ICE, and no tokens + an error or a full tiling. distinct_nontrivial counts distinct non-empty inputs.", maxLen, c29Alphabet, maxBr))
+	r.Extra("rule", fmt.Sprintf("exhaustive: every string of length<=%d over the 20-symbol token-boundary alphabet %q and every bracket string of length<=%d over ()[]{}; random: the hostile families of C28 (corpus, truncations, mutants, random bytes, token/keyword/CEL soup, encoding attacks, nesting shapes) plus bracket soup. Each evaluation = one parser.Parse(...).Stream() checked for contiguity from 0 to len(text), concatenation == input, and every bracket token fused with the matching partner (properly nested) or pointed at by an Error diagnostic. Inputs containing a numeric literal with an exponent of 7+ digits are not run (the lexer materialises 10^exponent; that resource problem is decided by C28). Prelude-rejected inputs (invalid UTF-8 / UTF-16 signature, decided by the harness) only need: no panic, no ICE, and no tokens + an error or a full tiling. distinct_nontrivial counts distinct non-empty inputs.", maxLen, c29Alphabet, maxBr))
 	r.Extra("assumptions", []string{
 		"token.Stream.All, Token.LeafSpan/Text/Kind/IsLeaf/StartEnd are read-only accessors that report the stream's real state",
 		"'reported as an error' = some Error-level diagnostic has a snippet overlapping the bracket token (snippets read by reflection from report.Diagnostic.snippets)",
